@@ -270,19 +270,23 @@ theorem c01_handler_failure_is_pae (env : Env) (hwf : WF2 env = true) (r : Reg)
     have h2 : ("P" == "[") = false := by decide
     simp only [refStep, h1, h2, beq_self_eq_true, if_true, Bool.false_eq_true, if_false] at hesc
     split at hesc
-    · rename_i hn _
-      cases ha : env.applyHandler h hn u arg with
-      | ok v => rw [ha] at hesc; simp [classify] at hesc
-      | beyond => rw [ha] at hesc; simp [classify] at hesc
-      | err e2 =>
-        rw [ha] at hesc
-        simp only [classify] at hesc
-        split at hesc
-        · contradiction
-        · rename_i hk
-          injection hesc with hesc; subst hesc
-          simpa [lookupKinds, Env.isKind, h1, h2] using hk
     · contradiction
+    · cases hnn : r.tbl.nearest env.k.ct (u.clsName h) with
+      | none => rw [hnn] at hesc; simp at hesc
+      | some hn =>
+        rw [hnn] at hesc
+        simp only at hesc
+        cases ha : env.applyHandler h hn u arg with
+        | ok v => rw [ha] at hesc; simp [classify] at hesc
+        | beyond => rw [ha] at hesc; simp [classify] at hesc
+        | err e2 =>
+          rw [ha] at hesc
+          simp only [classify] at hesc
+          split at hesc
+          · contradiction
+          · rename_i hk
+            injection hesc with hesc; subst hesc
+            simpa [lookupKinds, Env.isKind, h1, h2] using hk
   | ok v => rw [hw] at hr; simp [resOfWalk] at hr
   | fail k e => rw [hw] at hr; simp [resOfWalk] at hr
   | noHandler k => rw [hw] at hr; simp [resOfWalk] at hr
